@@ -68,6 +68,16 @@ class Fold(ast.NodeTransformer):
                     vals[x.targets[0].id] = x.value
             # one binding in the whole function (in-place updates of the object do not make the name None)
             self._nn = {k for k, v in vals.items() if k not in params and len(binds.get(k, [])) == 1 and _nonnull_expr(v)}
+            # loop / comprehension variables ranging over np.unique(..), range(..), np.arange(..), np.flatnonzero(..): numbers or numpy scalars
+            # (assumption A-nonnull-unique, DESIGN.md 13.4); the name must be bound nowhere else in the function
+            allb = {}
+            for x in ast.walk(self.f.node):
+                if isinstance(x, ast.Name) and isinstance(x.ctx, (ast.Store, ast.Del)):
+                    allb[x.id] = allb.get(x.id, 0) + 1
+            for x in ast.walk(self.f.node):
+                if isinstance(x, (ast.For, ast.comprehension)) and isinstance(x.target, ast.Name) and isinstance(x.iter, ast.Call) \
+                        and U(x.iter.func) in ("np.unique", "numpy.unique", "range", "np.arange", "np.flatnonzero") and allb.get(x.target.id) == 1 and x.target.id not in params:
+                    self._nn.add(x.target.id)
         return self._nn
 
     def visit_BinOp(self, n):
@@ -1329,6 +1339,27 @@ def _rows(repo, f, it):
     if t is not None:
         return [[r] for r in t]
     # D.items() / D.keys() / D.values() over a local bound once to a dict display with constant keys and cheap values
+    # TABLE.items() / .keys() / .values() over a module-level dict display with constant keys whose values are constants, tuples of
+    # constants or of module-level functions (a table that is never mutated: no subscript store / update on it anywhere in its module)
+    if isinstance(it, ast.Call) and isinstance(it.func, ast.Attribute) and it.func.attr in ("items", "keys", "values") and not it.args and isinstance(it.func.value, ast.Name):
+        nm_ = it.func.value.id
+        local = {a.arg for a in ast.walk(f.node.args) if isinstance(a, ast.arg)} | {x.id for x in ast.walk(f.node) if isinstance(x, ast.Name) and isinstance(x.ctx, ast.Store)}
+        cv = repo.const_value(f.mod, nm_) if nm_ not in local and nm_ in repo.consts.get(f.mod, {}) else None
+        if isinstance(cv, ast.Dict) and cv.keys and None not in cv.keys and all(isinstance(k, ast.Constant) for k in cv.keys) and len(cv.keys) <= MAX_ROWS:
+            def free_ok(name):
+                return name not in local and (name in ("np", "numpy", "math", "operator") or repo.chase(f.mod, name) is not None)
+            mutated = False
+            tree = repo.modules.get(f.mod)
+            for x in ast.walk(tree) if tree is not None else []:
+                if isinstance(x, ast.Subscript) and isinstance(x.ctx, (ast.Store, ast.Del)) and isinstance(x.value, ast.Name) and x.value.id == nm_:
+                    mutated = True
+                if isinstance(x, ast.Call) and isinstance(x.func, ast.Attribute) and isinstance(x.func.value, ast.Name) and x.func.value.id == nm_ \
+                        and x.func.attr in ("update", "pop", "setdefault", "clear", "popitem", "__setitem__"):
+                    mutated = True
+            if not mutated and all(_const(v, free_ok) for v in cv.values):
+                if it.func.attr == "items":
+                    return [[ast.Tuple(elts=[k, v], ctx=ast.Load())] for k, v in zip(cv.keys, cv.values)]
+                return [[k] for k in cv.keys] if it.func.attr == "keys" else [[v] for v in cv.values]
     if isinstance(it, ast.Call) and isinstance(it.func, ast.Attribute) and it.func.attr in ("items", "keys", "values") and not it.args and isinstance(it.func.value, ast.Name):
         d = _dict_display_local(f, it.func.value.id)
         if d is not None and len(d.keys) <= MAX_ROWS and all(_cheap(v) for v in d.values):
